@@ -340,8 +340,44 @@ func callList(fn string, in []multiaddr.Multiaddr) (out []multiaddr.Multiaddr, p
 	return
 }
 
+// sameSlice: the caller's slice holds the same entries in the same order as before
+func sameSlice(after []multiaddr.Multiaddr, before []*paddr) bool {
+	if len(after) != len(before) {
+		return false
+	}
+	for i := range after {
+		if key(after[i]) != key(before[i].ma) {
+			return false
+		}
+	}
+	return true
+}
+
 func doList(c *vlib.Ctx, fn string, in []*paddr, verbose bool) {
-	out, panicked := callList(fn, mas(in)) // mas() makes a fresh slice: clean mutates it
+	arg := mas(in) // a fresh slice: clean mutates it
+	out, panicked := callList(fn, arg)
+	// FilterPublic and FindHTTPAddrs return a selection: the list they were given is the caller's
+	// (the advertised address list) and must be left as it was -- elements and order
+	if (fn == "fp" || fn == "fh") && panicked == "" && !sameSlice(arg, in) {
+		cur := in
+		for changed := true; changed; {
+			changed = false
+			for i := range cur {
+				cand := append(append([]*paddr{}, cur[:i]...), cur[i+1:]...)
+				a2 := mas(cand)
+				if _, p2 := callList(fn, a2); p2 == "" && !sameSlice(a2, cand) {
+					cur, changed = cand, true
+					break
+				}
+			}
+		}
+		a2 := mas(cur)
+		callList(fn, a2)
+		if verbose {
+			fmt.Printf("ORACLE-FAIL: %s overwrote its input: the caller now holds %v\n", fn, a2)
+		}
+		c.Fail("list:"+fn+":mutates-input:"+strings.Join(names(cur), ","), fmt.Sprintf("%s(%v) overwrote the list it was given: the caller now holds %v", fn, names(cur), a2), replay{Kind: "list", Fn: fn, A: names(cur)})
+	}
 	c.Eval()
 	c.Count("list:" + fn)
 	rp := replay{Kind: "list", Fn: fn, A: names(in)}
@@ -441,6 +477,56 @@ func doEq(c *vlib.Ctx, a, b []*paddr, verbose bool) {
 	}
 }
 
+// doSeq: the helpers applied one after the other to the SAME slice (as a caller that keeps
+// the advertised list does) give what they give on fresh copies, and the list still equals
+// the advertised one
+func doSeq(c *vlib.Ctx, in []*paddr) {
+	keys := func(l []multiaddr.Multiaddr) string {
+		ks := make([]string, len(l))
+		for i, m := range l {
+			ks[i] = key(m)
+		}
+		return strings.Join(ks, "|")
+	}
+	var msg string
+	panicked := ""
+	func() {
+		defer func() {
+			if r := recover(); r != nil {
+				panicked = fmt.Sprint(r)
+			}
+		}()
+		shared := mas(in)
+		fp1 := keys(mautil.FilterPublic(shared))
+		fh1 := keys(mautil.FindHTTPAddrs(shared))
+		fp2 := keys(mautil.FilterPublic(shared))
+		eq := mautil.MultiaddrsEqual(append([]multiaddr.Multiaddr{}, shared...), mas(in)) // (MultiaddrsEqual sorts its arguments: give it copies)
+		cl := keys(mautil.CleanPeerAddrInfo(peer.AddrInfo{Addrs: shared}).Addrs)          // last: it reuses the backing array
+		wantFP, wantFH := keys(mautil.FilterPublic(mas(in))), keys(mautil.FindHTTPAddrs(mas(in)))
+		wantCL := keys(mautil.CleanPeerAddrInfo(peer.AddrInfo{Addrs: mas(in)}).Addrs)
+		switch {
+		case fp1 != wantFP:
+			msg = "first FilterPublic differs from FilterPublic on a fresh copy"
+		case fh1 != wantFH:
+			msg = "FindHTTPAddrs after FilterPublic on the same list differs from FindHTTPAddrs on a fresh copy"
+		case fp2 != wantFP:
+			msg = "a second FilterPublic on the same list differs from the first"
+		case !eq:
+			msg = "after FilterPublic and FindHTTPAddrs the list is no longer MultiaddrsEqual to the advertised one"
+		case cl != wantCL:
+			msg = "CleanPeerAddrInfo after the filters differs from CleanPeerAddrInfo on a fresh copy"
+		}
+	}()
+	c.Eval()
+	c.Count("list:seq")
+	rp := replay{Kind: "list", Fn: "seq", A: names(in)}
+	if panicked != "" {
+		c.Fail("list:seq:panic:"+strings.Join(names(in), ","), "helper sequence panicked: "+panicked, rp)
+	} else if msg != "" {
+		c.Fail("list:seq:"+strings.Join(names(in), ",")+":"+msg, fmt.Sprintf("on %v: %s", names(in), msg), rp)
+	}
+}
+
 func runLists(c *vlib.Ctx) {
 	byName := func(ns ...string) []*paddr { return fromNames(ns) }
 	var lists [][]*paddr
@@ -496,6 +582,7 @@ func runLists(c *vlib.Ctx) {
 		for _, fn := range []string{"fp", "fh", "clean"} {
 			doList(c, fn, l, false)
 		}
+		doSeq(c, l)
 	}
 	// equality: exhaustive over short lists on {a, b, nil}
 	abn := byName("/ip4/8.8.8.8/tcp/80/http", "/dns/example.com/tcp/443/https", "<nil>")
